@@ -56,6 +56,8 @@ structure St (Host Head Body End : Type) where
   syncs : Host → Nat
   locked : Host → Bool
   sidx : Host → Nat
+  /-- ghost: number of openings of the host's barrier -/
+  bar : Host → Nat
 
 /-- point update -/
 def upd {α β : Type} [DecidableEq α] (f : α → β) (a : α) (v : β) : α → β :=
@@ -66,7 +68,7 @@ variable {Host Head Body End : Type} [DecidableEq Host] [DecidableEq Head] [Deci
 def init : St Host Head Body End :=
   { K := 0, received := 0, got := fun _ => 0, sent := fun _ => 0, fars := fun _ => 0,
     passed := fun _ => false, round := fun _ => 0, phase := fun _ => .emitting, fb := fun _ => 0,
-    syncs := fun _ => 0, locked := fun _ => false, sidx := fun _ => 0 }
+    syncs := fun _ => 0, locked := fun _ => false, sidx := fun _ => 0, bar := fun _ => 0 }
 
 /-- the transitions -/
 inductive Step (L : Layout Host Head Body End) : St Host Head Body End → St Host Head Body End → Prop where
@@ -99,7 +101,8 @@ inductive Step (L : Layout Host Head Body End) : St Host Head Body End → St Ho
                                 then upd s.sidx (L.hostOfHead r) (s.fb r + 1) else s.sidx }
   /-- all heads of a host are at the barrier: it opens (state_handler.rs:124-126) -/
   | barrier (s) (h : Host) (hall : ∀ r, L.hostOfHead r = h → s.phase r = .atBarrier) :
-      Step L s { s with phase := fun r => if L.hostOfHead r = h then .released else s.phase r }
+      Step L s { s with phase := fun r => if L.hostOfHead r = h then .released else s.phase r,
+                        bar := upd s.bar h (s.bar h + 1) }
   /-- a released head goes on with the next round; the local leader unlocks first (state_handler.rs:128-131) -/
   | resume (s) (r : Head) (h : s.phase r = .released) :
       Step L s { s with phase := upd s.phase r .emitting,
